@@ -1,6 +1,6 @@
 (** C10 — changing representation loses nothing: the obligations, written out in full. *)
 From Coq Require Import List NArith ZArith String.
-From SK Require Import lib.LGraph lib.StrJoin model.C10_Model proof.C10_Proof proof.C10_Hydrogen proof.C10_Routes proof.C10_GmlWrite.
+From SK Require Import lib.LGraph lib.StrJoin model.C10_Model proof.C10_Proof proof.C10_Hydrogen proof.C10_Routes proof.C10_GmlWrite proof.C10_HRound.
 Import ListNotations.
 Local Open Scope Z_scope.
 
@@ -58,3 +58,43 @@ Theorem C10_gml_roundtrip :
     (forall u v, adj I' u v = adj c u v).
 Proof. exact gml_roundtrip. Qed.
 Print Assumptions C10_gml_roundtrip.
+
+(** Hydrogen round trip: for every networkx graph g (unique ids, one entry per bond, end points are nodes: [gwfb])
+    without explicit hydrogens, h_to_implicit (h_to_explicit g) has the same nodes in the same order, the same bond
+    dictionary at every pair, and at every node the same dictionary except that the reactant-half hcount inside
+    typesGH (if the node carries typesGH and had implicit hydrogens) stays lowered ([h_restore]).
+    Adjacency ORDER is not claimed (networkx copy() re-inserts edges).  New hydrogens are numbered from max id + 1
+    and all disappear again, so no renumbering remains.  Outside the domain (explicit H already present) the graph is
+    not restored — those hydrogens are folded too (proof/C10_HRound.v: h_roundtrip_outside); the molecule and the
+    count are (C10_h_total_*). *)
+Theorem C10_h_roundtrip :
+  forall g : gr, gwfb g = true -> no_H g = true ->
+    let g' := h_to_implicit (h_to_explicit g None false) in
+    node_ids g' = node_ids g /\
+    (forall n a, label g n = Some a -> label g' n = Some (h_restore a)) /\
+    (forall u v, adj g' u v = adj g u v).
+Proof. exact h_roundtrip. Qed.
+Print Assumptions C10_h_roundtrip.
+
+(** ... and for molecule graphs (no typesGH) every node dictionary is restored exactly. *)
+Theorem C10_h_roundtrip_mol :
+  forall g : gr, gwfb g = true -> no_H g = true -> no_tgh g = true ->
+    let g' := h_to_implicit (h_to_explicit g None false) in
+    node_ids g' = node_ids g /\ (forall n, label g' n = label g n) /\ (forall u v, adj g' u v = adj g u v).
+Proof. exact h_roundtrip_mol. Qed.
+Print Assumptions C10_h_roundtrip_mol.
+
+(** Heavy-atom skeleton, explicit direction: for every networkx graph (explicit hydrogens allowed) h_to_explicit keeps
+    every old node with element, aromaticity, charge, atom_map untouched and hcount lowered ([h_lowered]), keeps the
+    bond dictionary between old nodes, and every new node is a hydrogen (H_att) bonded by a single bond to exactly
+    one old node and to nothing else. *)
+Theorem C10_h_explicit_skeleton :
+  forall g : gr, gwfb g = true ->
+    let E := h_to_explicit g None false in
+    (forall n a, label g n = Some a -> label E n = Some (h_lowered a)) /\
+    (forall u v, In u (node_ids g) -> In v (node_ids g) -> adj E u v = adj g u v) /\
+    (forall h, In h (node_ids E) -> ~ In h (node_ids g) ->
+       label E h = Some H_att /\
+       exists m, In m (node_ids g) /\ forall w, adj E h w = if N.eqb w m then Some e_single else None).
+Proof. exact h_explicit_skeleton. Qed.
+Print Assumptions C10_h_explicit_skeleton.
